@@ -98,6 +98,7 @@ class C12(Prop):
         "wq_conservation", "wq_exclusive", "wq_fifo", "wq_fifo_prefix", "wq_counters", "wq_no_lost_wakeup_worker",
         "wq_no_lost_wakeup_reader", "wq_wake_delivers", "wq_reset_spec", "wq_no_overflow", "wq_run_reachable",
         "wq_reset_while_pending_loses_wakeup", "wq_unrepaired_remove_loses_block",
+        "wq_full_api_conservation", "wq_full_api_no_overflow", "wq_reset_every_state", "wq_reachable_full",
         "codec_unpack5_pack5", "codec_unpack2_pack2", "codec_unpack2_pack5", "codec_packet_count", "codec_eod_last",
         "codec_unpack_chunk", "codec_pack_in_place", "codec_unpack_in_place", "codec_metadata_round_trip", "th_barrier", "th_counter", "th_no_lost_wakeup_master", "th_progress",
         "loader_nload_largest_prefix", "loader_chunks_partition", "dsq_chunks_are_the_database", "pipe_order", "pipe_eof_after_all", "pipe_lanes", "pipe_no_deadlock", "pipe_no_lost_wakeup", "pipe_eof_delivered", "pipe_buffers",
@@ -211,6 +212,8 @@ class C12(Prop):
         c.append({"name": "wq-overflow", "sticky": 1, "ops": ["wq create size=1", "wq init b=1", "wq init b=2", "wq rupd in=0 out=1", "wq rupd in=1 out=0",
                                                              "wq wupd w=1 in=0 out=1", "wq init b=2", "wq wupd w=1 in=1 out=0", "wq init b=3", "wq rupd in=0 out=1",
                                                              "wq wupd w=1 in=1 out=1", "wq rupd in=2 out=0", "wq wupd w=1 in=1 out=0", "wq rupd in=2 out=0", "wq remove", "wq remove"]})
+        c.append({"name": "wq-dump-cpu", "sticky": 1, "ops": ["wq create size=3", "wq dump", "wq init b=1", "wq init b=2", "wq dump", "wq rupd in=0 out=1", "wq rupd in=1 out=0", "wq dump",
+                                                             "wq wupd w=1 in=0 out=1", "wq wupd w=1 in=1 out=0", "wq dump", "wq reset", "wq dump", "thcpu"]})
         c.append({"name": "wqrun-small", "ops": ["wqrun size=1 workers=1 blocks=1 items=3 seed=1 pert=0", "wqrun size=4 workers=3 blocks=4 items=12 seed=2 pert=60",
                                                              "wqrun size=2 workers=3 blocks=2 items=9 seed=3 pert=80 lazy=1"]})
         c.append({"name": "thrun-small", "ops": ["thrun workers=1 rounds=2 seed=1 pert=0", "thrun workers=4 rounds=2 seed=3 pert=70"]})
@@ -346,8 +349,10 @@ class C12(Prop):
                     if rq: held[rq.pop()] = 0
                 elif r < 0.27:
                     ops.append("wq reset"); rq += wq; wq = []
-                elif r < 0.3:
+                elif r < 0.29:
                     ops.append("wq complete")
+                elif r < 0.33:
+                    ops.append("wq dump")
                 elif r < 0.65:      # reader
                     mine = [b for b, h in held.items() if h == 0]
                     b = rng.choice(mine) if mine and rng.random() < 0.75 else 0
